@@ -43,6 +43,21 @@ def kwarg(t, name, default=None):
   return dict(t.args[2]).get(name, default)
 
 
+_MIRROR = {'>=': '<=', '<=': '>=', '<': '>', '>': '<', '==': '==', '!=': '!='}
+
+
+def cmp_oriented(x, right_pred):
+  """(op, l, r) of comparison term `x`, mirrored if needed so that `right_pred(r)` holds; None if neither side qualifies."""
+  if x.op != 'cmp' or len(x.args) != 3:
+    return None
+  op, l, r = x.args
+  if right_pred(r) and not right_pred(l):
+    return op, l, r
+  if right_pred(l) and not right_pred(r) and op in _MIRROR:
+    return _MIRROR[op], r, l
+  return None
+
+
 def strip_casts(t):
   """Remove dtype casts / array wrappers that do not change the value."""
   while True:
